@@ -111,7 +111,18 @@ fn judge(p: &Pairing, state: &NTree, model: &Model, op: &Op, rm: &Res, rs: &Res,
     let cls = arg_classes(state, model, op);
     let cfg = if p.unpriv { "uid1000" } else { "root" };
     rep.key_str(&format!("{}|{}|{}|{}", cfg, op.name(), cls, rs.class().split('(').next().unwrap_or("")));
-    let (nm, ns) = (norm_res(rm, p.unpriv, op), norm_res(rs, p.unpriv, op));
+    let (mut nm, mut ns) = (norm_res(rm, p.unpriv, op), norm_res(rs, p.unpriv, op));
+    // readlink: the relative text is compared through the navigation law clean(dir(link)/text) - the real backend
+    // keeps the text a link was created with when the link is moved (recorded finding, keyed on move_p), and a
+    // target that is the link's own directory has no relative spelling (C16)
+    if let (Op::Readlink(lp), Res::Path(a), Res::Path(b)) = (op, rm, rs) {
+        if let Some(Ok(la)) = model.abs(lp) {
+            let dir = parent_of(&map_path(&la, &p.root)).unwrap_or_else(|| "/".into());
+            let nav = |t: &str| if t.starts_with('/') { crate::refs::go_clean(t) } else { crate::refs::go_clean(&format!("{}/{}", dir, t)) };
+            nm = format!("Path(navigates to {:?})", nav(a));
+            ns = format!("Path(navigates to {:?})", nav(b));
+        }
+    }
     let (cm, cs) = (comparable(tm), comparable(ts));
     let mut ok = true;
     let wit = |what: &str, detail: String| {
@@ -143,6 +154,13 @@ fn judge(p: &Pairing, state: &NTree, model: &Model, op: &Op, rm: &Res, rs: &Res,
     // after a failure only the single-target calls promise an unchanged tree; a multi-entry call that fails half
     // way leaves what its (unordered) traversal had reached
     let multi = matches!(op, Op::Copy(..) | Op::CopyB(..) | Op::Chmod(..) | Op::ChmodB(..) | Op::Chown(..) | Op::ChownB(..) | Op::RemoveAll(..) | Op::MkfileM(..));
+    // a directory copied into its own subtree where a copy lands on an entry that is itself still to be copied: what
+    // that second copy carries depends on the order of the (unordered) traversal, on both backends
+    let overlap = copy_overlap_collision(state, model, op);
+    if overlap && cm != cs {
+        rep.count("trees_not_compared:copy-into-own-subtree-overwrites-a-source-entry", 1);
+        return false;
+    }
     if cm != cs && !(multi && rm.is_err() && rs.is_err()) {
         ok = false;
         rep.violation(
@@ -153,6 +171,25 @@ fn judge(p: &Pairing, state: &NTree, model: &Model, op: &Op, rm: &Res, rs: &Res,
     // (the process cwd of the real backend follows kernel semantics - it moves with a renamed directory and
     // resolves links - and is not part of the tree the statement's observer compares)
     ok
+}
+
+fn copy_overlap_collision(state: &NTree, model: &Model, op: &Op) -> bool {
+    let (s, d) = match op {
+        Op::Copy(s, d) | Op::CopyB(s, d, _, _) => (s, d),
+        _ => return false,
+    };
+    let (sa, da) = match (model.abs(s), model.abs(d)) {
+        (Some(Ok(a)), Some(Ok(b))) => (a, b),
+        _ => return false,
+    };
+    if !is_under(&da, &sa) || !matches!(state.nodes.get(&sa).map(|n| &n.kind), Some(NKind::Dir)) {
+        return false;
+    }
+    let droot = if state.is_real_dir(&da) { join(&da, base_of(&sa)) } else { da.clone() };
+    state.subtree(&sa).iter().any(|k| {
+        let dst = format!("{}{}", droot, &k[sa.len()..]);
+        k != &dst && state.nodes.contains_key(&dst) && !matches!(state.nodes[&dst].kind, NKind::Dir)
+    })
 }
 
 /// (path, observation, name of the first differing query) triples through the public API; link entries are left to
